@@ -45,7 +45,9 @@ def _counter_task(arg):
     cls = CountMinLog8 if kind == "log8" else CountMinLog16
     umax = UMAX[kind]
     try:
-        sk = cls(1, 1, mc, nr)
+        # parameters as Python ints or, as the class loaders pass them, as np.uint64
+        T = np.uint64 if (mc + nr) % 2 else int
+        sk = cls(T(1), T(1), T(mc), T(nr))
     except ValueError:
         rec.count("config_rejected")
         return rec
@@ -303,7 +305,8 @@ DIST_CFGS = [(6000, 15), (CEIL, 15), (2**63, 0), (1000, 100)]
 def _dist_task(arg):
     mc, nr, N, R, seed, unit_calls = arg
     rec = common.Recorder()
-    sk = CountMinLog8(1, 1, mc, nr)
+    T = np.uint64 if N % 2000 == 1000 else int
+    sk = CountMinLog8(T(1), T(1), T(mc), T(nr))
     base = float(sk.base)
     numba_seed(int(seed % (2**31)))
     sk.rand_ptr = 2048
